@@ -253,6 +253,8 @@ pub enum Seg {
     Var(String),
     /// `"${v}"`: literal
     QVar(String),
+    /// `~` at the very start of the word, with HOME set to this string: the result is literal
+    Tilde(String),
 }
 
 const LIT_OK: &str = "absuwork.-*?[]!/";
@@ -277,6 +279,12 @@ pub fn render(word: &[Seg]) -> Option<(String, Vec<String>)> {
                 }
                 text.push('\\');
                 text.push(*c);
+            }
+            Seg::Tilde(t) => {
+                if !text.is_empty() || !t.chars().all(|c| QUOTED_OK.contains(c) || c == '\\') {
+                    return None;
+                }
+                text.push('~');
             }
             Seg::SQ(t) => {
                 if !t.chars().all(|c| QUOTED_OK.contains(c) || c == '\\') {
@@ -316,7 +324,7 @@ pub fn unquoted(word: &[Seg]) -> String {
     let mut s = String::new();
     for seg in word {
         match seg {
-            Seg::Lit(t) | Seg::SQ(t) | Seg::DQ(t) | Seg::Var(t) | Seg::QVar(t) => s.push_str(t),
+            Seg::Lit(t) | Seg::SQ(t) | Seg::DQ(t) | Seg::Var(t) | Seg::QVar(t) | Seg::Tilde(t) => s.push_str(t),
             Seg::Esc(c) => s.push(*c),
         }
     }
@@ -343,7 +351,7 @@ fn flatten(word: &[Seg], pattern_rules: bool) -> Result<Vec<Item>, &'static str>
         match seg {
             Seg::Lit(t) => out.extend(t.chars().map(|c| Item { c, k: K::Plain })),
             Seg::Esc(c) => out.push(Item { c: *c, k: K::Quoted }),
-            Seg::SQ(t) | Seg::DQ(t) | Seg::QVar(t) => out.extend(t.chars().map(|c| Item { c, k: K::Quoted })),
+            Seg::SQ(t) | Seg::DQ(t) | Seg::QVar(t) | Seg::Tilde(t) => out.extend(t.chars().map(|c| Item { c, k: K::Quoted })),
             Seg::Var(v) => {
                 if v.is_empty() {
                     return Err("empty unquoted expansion (field may vanish; C01's subject)");
